@@ -65,18 +65,18 @@ PropsOver(NA, S, WS) == {UNION T : T \in SUBSET Complete(NA, S, WS)}
 
 QOf(Bs, As, WS) == [w \in WS |-> IF w \notin As THEN 0 ELSE IF w \in Bs THEN 1 ELSE 2]
 
-(* The postulates for an inference relation Inf(base, query) and a safe      *)
-(* splitting sp of B:                                                        *)
-(*   CRel  for A,B over Si, D complete over S3:   A D |~_B  B  iff  A D |~_Bi  B          *)
-(*   CInd  ... and consistent C over Sj:          A D |~_B  B  iff  A D C |~_B  B         *)
-CRelHolds(NA, B, sp, WS, Inf(_, _)) ==
-    \A x \in sp.sides : x.d # {} =>
-        \A D \in Complete(NA, sp.s3, WS) : \A A \in PropsOver(NA, x.s, WS) : \A C \in PropsOver(NA, x.s, WS) :
-            Inf(B, QOf(C, A \cap D, WS)) <=> Inf(Restrict(B, x.d), QOf(C, A \cap D, WS))
+(* The postulates for a safe splitting sp of base B, side x (other side y), for an inference relation given   *)
+(* as InfFull(q) (from B) and InfSub(q) (from the sub-base B|x.d):                                            *)
+(*   CRel  for A,C over x.s, D complete over S3:     A D |~_B  C  iff  A D |~_{B|x.d}  C                      *)
+(*   CInd  ... and consistent E over y.s:            A D |~_B  C  iff  A D E |~_B  C                          *)
+(* (C may be taken inside A: only A&C matters; A = false is trivial)                                          *)
+CRelSide(NA, sp, x, WS, InfFull(_), InfSub(_)) ==
+    \A D \in Complete(NA, sp.s3, WS) : \A A \in PropsOver(NA, x.s, WS) \ {{}} : \A C \in PropsOver(NA, x.s, WS) :
+        C \subseteq A => (InfFull(QOf(C, A \cap D, WS)) <=> InfSub(QOf(C, A \cap D, WS)))
 
-CIndHolds(NA, B, sp, WS, Inf(_, _)) ==
-    \A x, y \in sp.sides : x # y =>
-        \A D \in Complete(NA, sp.s3, WS) : \A A \in PropsOver(NA, x.s, WS) : \A C \in PropsOver(NA, x.s, WS) :
+CIndSide(NA, sp, x, y, WS, InfFull(_)) ==
+    \A D \in Complete(NA, sp.s3, WS) : \A A \in PropsOver(NA, x.s, WS) \ {{}} : \A C \in PropsOver(NA, x.s, WS) :
+        C \subseteq A =>
             \A E \in PropsOver(NA, y.s, WS) \ {{}} :
-                Inf(B, QOf(C, A \cap D, WS)) <=> Inf(B, QOf(C, (A \cap D) \cap E, WS))
+                InfFull(QOf(C, A \cap D, WS)) <=> InfFull(QOf(C, (A \cap D) \cap E, WS))
 =============================================================================
